@@ -501,9 +501,11 @@ SignalHandler::SignalHandler(BasicSolver &s)
   solver_.set_interrupter(this);
   signal_message_ptr_ = message_.c_str();
   signal_message_size_ = static_cast<unsigned>(message_.size());
+  // Reset the counter before the handlers are installed so that
+  // an interrupt arriving right after std::signal() is not forgotten.
+  stop_ = 0;
   std::signal(SIGINT, HandleSigInt);
   std::signal(SIGTERM, HandleSigInt);
-  stop_ = 0;
 }
 
 SignalHandler::~SignalHandler() {
